@@ -206,6 +206,25 @@ int main(int argc, char** argv) {
     fprintf(stderr, "pstl(ctl): %lld records\n", o.n);
     return 0;
   }
+  // find_if with exactly one matching element, at every position of a short array and at random positions of longer ones
+  for (unsigned t : {1u, 2u, 3u, maxT}) {
+    galois::setActiveThreads(t);
+    for (size_t n : {(size_t)300, (size_t)1025, (size_t)(thorough ? 20000 : 5000)}) {
+      std::vector<int> v(n, 0);
+      VL pos, res;
+      size_t cnt = n <= 300 ? n : (thorough ? 400 : 120);
+      for (size_t k = 0; k < cnt; ++k) {
+        size_t p = n <= 300 ? k : rng.below(n);
+        v[p] = 5;
+        g_cur = "find_if";
+        snprintf(g_ctx, sizeof g_ctx, "\"threads\":%u,\"n\":%zu,\"rand\":0,\"in\":[[0,%zu],[5,1],[0,%zu]]", t, n, p, n - p - 1);
+        auto f = galois::ParallelSTL::find_if(v.begin(), v.end(), [](int x) { return x == 5; });
+        pos.push_back((long long)p); res.push_back((long long)(f - v.begin()));
+        v[p] = 0;
+      }
+      out->line(Rec().str("k", "find_unique").i("threads", t).i("n", n).i("rand", 0).arr("pos", pos).arr("res", res));
+    }
+  }
   // hand-picked shapes first: empty, below/at/above the cut-off, all-equal, all-false then all-true blocks, ...
   std::vector<VVL> fixed = {{}, {{1, 1}}, {{2, 1023}}, {{2, 1024}}, {{2, 1025}}, {{3, 1024}, {0, 1024}}, {{0, 1024}, {3, 1024}}, {{3, 1024}, {0, 1024}, {3, 7}},
                             {{0, 2048}}, {{3, 2048}}, {{0, 1000}, {3, 1000}, {0, 1000}, {3, 1000}}, {{1, 3000}, {0, 1}}, {{0, 1}, {1, 3000}}};
